@@ -296,6 +296,9 @@ impl<'tcx> Cx<'tcx> {
         }
         if let Const::Unevaluated(uv, _) = c {
             items.push(("uneval", js(&self.path(uv.def))));
+            if let Some(p) = uv.promoted {
+                items.push(("promoted", format!("{}", p.as_usize())));
+            }
         }
         jobj(&items)
     }
@@ -504,6 +507,33 @@ impl<'tcx> Cx<'tcx> {
             }
         }
         items.push(("debug", jlist(&dbg)));
+        // constants of promoted bodies (e.g. `&"_"`), by promoted index
+        if full {
+            let mut proms = vec![];
+            for pb in tcx.promoted_mir(did).iter() {
+                let mut ks = vec![];
+                for data in pb.basic_blocks.iter() {
+                    for st in &data.statements {
+                        if let StatementKind::Assign(b) = &st.kind {
+                            let (_, rv) = &**b;
+                            let ops: Vec<&Operand<'tcx>> = match rv {
+                                Rvalue::Use(o, _) => vec![o],
+                                Rvalue::Aggregate(_, os) => os.iter().collect(),
+                                Rvalue::Cast(_, o, _) => vec![o],
+                                _ => vec![],
+                            };
+                            for o in ops {
+                                if let Operand::Constant(c) = o {
+                                    ks.push(self.konst(did, &c.const_));
+                                }
+                            }
+                        }
+                    }
+                }
+                proms.push(jlist(&ks));
+            }
+            items.push(("promoted", jlist(&proms)));
+        }
 
         if !full {
             // summary only: the set of resolved callees, assert kinds with
